@@ -140,6 +140,9 @@ func TestC02(t *testing.T) {
 	rep.Rule = "BFS to fixpoint over canonical node states; transitions = every claim about the node itself (suspect/dead/alive/push-pull entry x incarnation own-1,own,own+1,own+6,MaxUint32-1 x accuser x carrier x meta/version/address variants), UpdateNode, drain, time, reaping"
 	rep.Assumptions = []string{"no Leave in this alphabet (C08 covers it)", "interleavings with concurrent API calls are explored by the Engine T part (c02 threads)"}
 	sc := &swimCheck{name: "C02", wc: worldCfg{Peers: 2}, alphabet: c02Alphabet(cap, thorough()), oracle: c02Oracle}
+	if replayT(t, rep, c02TScenarios()) {
+		return
+	}
 	var rp swimReplay
 	if loadReplay(&rp) {
 		sc.runPath(t, rp.Path, func(w *world, ob *stepObs, i int) bool {
@@ -159,6 +162,14 @@ func TestC02(t *testing.T) {
 	if i, _ := shard(); i == 0 {
 		sc.bfs(t, rep, "default")
 	}
+	tb := 2
+	if thorough() {
+		tb = 3
+	}
+	rep.Bounds["T_preemption_bound"] = tb
+	// verdicts about publishing the latest metadata belong to C05 and are judged there
+	runTSet(t, rep, c02TScenarios(), tb, 6000, func(v string) bool { return v != "latest-metadata-not-published" && v != "update-needed-its-timeout" })
+
 	rep.Distinct = rep.States
 	rep.Evaluations = rep.Transitions
 }
